@@ -503,10 +503,148 @@ fn explore_hasher_obj(cnf: &Cnf, clauses: &[Clause], max_levels: usize, rep: &mu
         h.decide(Literal::new(VarLabel::new(v as u64), v % 2 == 0));
     }
     h.pop();
-    if h != before {
-        return Some((vec![HAct::Push, HAct::Pop], "pop does not restore the hasher's state".into()));
+    // behavioural comparison (the property promises hashes, not a representation: an implementation that
+    // restores lazily is allowed to differ field by field): every partial assignment hashes as before
+    if n <= 4 {
+        for code in 0..3usize.pow(n as u32) {
+            let (m, _) = pm_of(code, n);
+            if h.hash(&m) != before.hash(&m) {
+                return Some((vec![HAct::Push, HAct::Pop], "after push / decide... / pop an assignment hashes differently than before the push".into()));
+            }
+        }
     }
     None
+}
+
+/// second regime, without any merging of states: every legal push / decide / pop sequence of at most
+/// `depth` calls on a fresh copy of the formula's hasher; after every call the hash of the decided
+/// assignment is compared with the hash recorded for the same residual formula (and vice versa).
+/// A defect that lives in state the reference model does not have (a lazily restored frame, a
+/// trail, a stamp) cannot be merged away here, because nothing is merged.
+fn explore_hasher_seq(cnf: &Cnf, clauses: &[Clause], max_levels: usize, depth: usize, rep: &mut Report) -> Option<(Vec<HAct>, String)> {
+    // twice: hashing the hasher of the path itself after every call (a query with a side effect is then
+    // part of every history), and hashing a throw-away copy (the path sees push / decide / pop only, so a
+    // lazily maintained field is never healed by the harness looking at it)
+    if let Some(x) = explore_hasher_seq_mode(cnf, clauses, max_levels, depth, rep, false) {
+        return Some(x);
+    }
+    explore_hasher_seq_mode(cnf, clauses, max_levels, depth, rep, true)
+}
+
+fn explore_hasher_seq_mode(cnf: &Cnf, clauses: &[Clause], max_levels: usize, depth: usize, rep: &mut Report, on_copy: bool) -> Option<(Vec<HAct>, String)> {
+    let norm = normalise(clauses);
+    let n = cnf.num_vars();
+    struct Cx<'c> {
+        norm: &'c [Clause],
+        n: usize,
+        max_levels: usize,
+        by_res: HashMap<BTreeMap<usize, Vec<Lit>>, HashedCNF>,
+        by_hash: HashMap<HashedCNF, BTreeMap<usize, Vec<Lit>>>,
+        steps: u64,
+        seqs: u64,
+        on_copy: bool,
+    }
+    fn observe(cx: &mut Cx, h: &CnfHasher, a: &[Option<bool>]) -> Option<String> {
+        let copy;
+        let h = if cx.on_copy {
+            copy = h.clone();
+            &copy
+        } else {
+            h
+        };
+        let hv = match guarded(|| h.hash(&model_of(a))) {
+            Ok(h) => h,
+            Err(p) => return Some(format!("hash panicked: {}", p)),
+        };
+        if let Some(res) = residual(cx.norm, a) {
+            if let Some(old) = cx.by_res.get(&res) {
+                if *old != hv {
+                    return Some(format!("the residual formula {:?} hashes differently than it did after another history", res));
+                }
+            } else {
+                cx.by_res.insert(res.clone(), hv.clone());
+            }
+            if let Some(old) = cx.by_hash.get(&hv) {
+                if *old != res {
+                    return Some(format!("different residual formulas {:?} / {:?} share one hash", old, res));
+                }
+            } else {
+                cx.by_hash.insert(hv, res);
+            }
+        }
+        None
+    }
+    fn go(cx: &mut Cx, h: &CnfHasher, levels: &mut Vec<Vec<Option<bool>>>, hist: &mut Vec<HAct>, left: usize) -> Option<(Vec<HAct>, String)> {
+        if left == 0 {
+            cx.seqs += 1;
+            return None;
+        }
+        let top = levels.last().unwrap().clone();
+        let mut acts = Vec::new();
+        if levels.len() < cx.max_levels {
+            acts.push(HAct::Push);
+        }
+        for v in 0..cx.n {
+            if top[v].is_none() {
+                acts.push(HAct::Decide(v, true));
+                acts.push(HAct::Decide(v, false));
+            }
+        }
+        if levels.len() > 1 {
+            acts.push(HAct::Pop);
+        }
+        for a in acts {
+            let mut h2 = h.clone();
+            hist.push(a.clone());
+            cx.steps += 1;
+            let mut popped: Option<Vec<Option<bool>>> = None;
+            let r = guarded(|| match &a {
+                HAct::Push => h2.push(),
+                HAct::Decide(v, b) => h2.decide(Literal::new(VarLabel::new(*v as u64), *b)),
+                HAct::Pop => h2.pop(),
+            });
+            if let Err(p) = r {
+                return Some((hist.clone(), format!("{:?} panicked: {}", a, p)));
+            }
+            match &a {
+                HAct::Push => {
+                    let t = levels.last().unwrap().clone();
+                    levels.push(t);
+                }
+                HAct::Decide(v, b) => levels.last_mut().unwrap()[*v] = Some(*b),
+                HAct::Pop => popped = levels.pop(),
+            }
+            let cur = levels.last().unwrap().clone();
+            if let Some(e) = observe(cx, &h2, &cur) {
+                return Some((hist.clone(), e));
+            }
+            if let Some(x) = go(cx, &h2, levels, hist, left - 1) {
+                return Some(x);
+            }
+            // undo the reference model
+            match &a {
+                HAct::Push => {
+                    levels.pop();
+                }
+                HAct::Decide(v, _) => levels.last_mut().unwrap()[*v] = None,
+                HAct::Pop => levels.push(popped.unwrap()),
+            }
+            hist.pop();
+        }
+        None
+    }
+    let mut cx = Cx { norm: &norm, n, max_levels, by_res: HashMap::new(), by_hash: HashMap::new(), steps: 0, seqs: 0, on_copy };
+    let h0: CnfHasher = cnf.hasher().clone();
+    let mut levels = vec![vec![None; n]];
+    if let Some(e) = observe(&mut cx, &h0, &levels[0].clone()) {
+        return Some((vec![], e));
+    }
+    let mut hist = Vec::new();
+    let out = go(&mut cx, &h0, &mut levels, &mut hist, depth);
+    rep.transitions += cx.steps;
+    rep.add_extra("hasher_unmerged_sequences", cx.seqs);
+    rep.add_extra("hasher_unmerged_steps", cx.steps);
+    out
 }
 
 // ---------------------------------------------------------------------------------------------
@@ -672,6 +810,11 @@ pub fn run(ctx: &Ctx) -> Report {
         }
     }
     let (derived_stride, derived_depth) = (ctx.tier.pick(4, 1), ctx.tier.pick(1, 2));
+    // unmerged call sequences: depth and how many of the clause lists get them
+    // (every clause list to seq_depth; every seq_deep_stride-th list, and a rule-defined handful of richer
+    // formulas further down, to seq_deep)
+    let (seq_depth, seq_stride) = (ctx.tier.pick(5, 6), ctx.tier.pick(1, 1));
+    let (seq_deep, seq_deep_stride) = (ctx.tier.pick(8, 9), ctx.tier.pick(61, 31));
     for (n, mut sets, name) in fams {
         let types = clause_types(n);
         ctx.rotate(&mut sets);
@@ -694,6 +837,13 @@ pub fn run(ctx: &Ctx) -> Report {
                     r.violation("hasher:residual-hash", format!("clause list {} after {:?}: {}", cnf_json(&clauses), hist, w), json!({"kind": "hasher", "cnf": cnf_json(&clauses), "history": hact_json(&hist)}));
                 }
                 r.distinct_nontrivial += r.states - before;
+                if (r.traces as usize) % seq_stride == 0 {
+                    let cnf = to_cnf(&clauses);
+                    let d = if (s.iter().sum::<usize>() + s.len()) % seq_deep_stride == 0 { seq_deep } else { seq_depth };
+                    if let Some((hist, w)) = explore_hasher_seq(&cnf, &clauses, (nv + 1).min(3), d, &mut r) {
+                        r.violation("hasher:residual-hash", format!("clause list {} after {:?} (unmerged sequences): {}", cnf_json(&clauses), hist, w), json!({"kind": "hasher_seq", "cnf": cnf_json(&clauses), "history": hact_json(&hist), "depth": d}));
+                    }
+                }
                 // derived objects: formulas obtained by conditioning a parent that has already
                 // answered queries, checked like fresh formulas with the same clauses
                 if (r.traces as usize) % derived_stride == 0 {
@@ -718,6 +868,42 @@ pub fn run(ctx: &Ctx) -> Report {
         });
         rep.add_extra(&format!("{}_clause_lists", name), fam.traces);
         rep.bound(name, json!({"variables": n, "clause_lists": sets.len(), "hasher_levels": "<= num_vars + 1"}));
+        rep.merge(fam);
+    }
+    // richer formulas for the deep unmerged sequences: four clauses over three variables, every variable in
+    // both polarities, widths 2 and 3 mixed (rule: clause i is built from the bits of the pattern)
+    {
+        let mut rich: Vec<Vec<Clause>> = Vec::new();
+        for pat in 0..ctx.tier.pick(16usize, 64) {
+            let mut cl: Vec<Clause> = Vec::new();
+            for i in 0..4usize {
+                let a = i % 3;
+                let b = (i + 1) % 3;
+                let c = (i + 2) % 3;
+                let bit = |k: usize| (pat >> ((i + k) % 6)) & 1 == 1;
+                let mut clause: Clause = vec![(a, bit(0)), (b, !bit(1))];
+                if bit(2) {
+                    clause.push((c, bit(3)));
+                }
+                cl.push(clause);
+            }
+            rich.push(cl);
+        }
+        let chunks: Vec<&[Vec<Clause>]> = rich.chunks(1).collect();
+        let fam = par_run(ctx, &chunks, |_, chunk| {
+            let mut r = Report::default();
+            r.exhaustive = true;
+            for clauses in chunk.iter() {
+                r.traces += 1;
+                let cnf = to_cnf(clauses);
+                if let Some((hist, w)) = explore_hasher_seq(&cnf, clauses, 3, seq_deep, &mut r) {
+                    r.violation("hasher:residual-hash", format!("clause list {} after {:?} (unmerged sequences): {}", cnf_json(clauses), hist, w), json!({"kind": "hasher_seq", "cnf": cnf_json(clauses), "history": hact_json(&hist), "depth": seq_deep}));
+                }
+            }
+            r
+        });
+        rep.add_extra("rich_clause_lists_deep_sequences", fam.traces);
+        rep.bound("hasher_unmerged_sequences", json!({"all_clause_lists_depth": seq_depth, "every_kth_list_and_rich_formulas_depth": seq_deep, "k": seq_deep_stride, "levels": "<= 3", "merging": "none"}));
         rep.merge(fam);
     }
     // literal repetition inside clauses (n = 2): every clause = sequence of <= 3 literals
@@ -858,6 +1044,14 @@ pub fn replay(_ctx: &Ctx, case: &Value) -> Report {
             let c = cnf_from_json(&case["cnf"]);
             let nv = case["levels"].as_u64().map(|x| x as usize - 1).unwrap_or(num_vars(&c));
             if let Some((h, w)) = explore_hasher(&c, nv + 1, &mut rep) {
+                rep.violation("hasher:residual-hash", format!("{:?}: {}", h, w), case.clone());
+            }
+        }
+        Some("hasher_seq") => {
+            let c = cnf_from_json(&case["cnf"]);
+            let nv = num_vars(&c);
+            let d = case["depth"].as_u64().unwrap_or(6) as usize;
+            if let Some((h, w)) = explore_hasher_seq(&to_cnf(&c), &c, (nv + 1).min(3), d, &mut rep) {
                 rep.violation("hasher:residual-hash", format!("{:?}: {}", h, w), case.clone());
             }
         }
